@@ -34,6 +34,7 @@ type Lexer struct {
 }
 
 func (l *Lexer) Clone() *Lexer {
+	verifHook("Snapshot", l, false, 0, 0, 0)
 	lex := *l
 	return &lex
 }
@@ -64,6 +65,7 @@ func (l *Lexer) NextToken() (err error) {
 }
 
 func (l *Lexer) nextToken(noPanic bool) {
+	verifHook("TokBegin", l, noPanic, 0, 0, 0)
 	l.lastTokenKind = l.Token.Kind
 	l.Token = token.Token{}
 
@@ -91,6 +93,7 @@ func (l *Lexer) nextToken(noPanic bool) {
 			l.Token.Pos = token.Pos(l.pos)
 			l.Token.End = token.Pos(l.pos)
 			l.Token.Kind = token.TokenBad
+			verifHook("Tok", l, noPanic, 0, 0, 0)
 			return
 		}
 	}
@@ -108,6 +111,7 @@ func (l *Lexer) nextToken(noPanic bool) {
 	}
 	l.Token.Raw = l.Buffer[i:l.pos]
 	l.Token.End = token.Pos(l.pos)
+	verifHook("Tok", l, noPanic, 0, 0, 0)
 }
 
 func (l *Lexer) consumeToken(noPanic bool) {
